@@ -43,6 +43,9 @@ fn run(loc: &Locator, input: &str, memo: bool) -> (u64, usize, String, String, u
             let tree = ctx.tree().finalize(n);
             let root = tree.root();
             format!("{root:#?}").hash(&mut h);
+            if std::env::var("PARSEDRV_DEBUG").is_ok() && memo {
+                eprintln!("{root:#?}");
+            }
             // leaves in source order, each inside the text, non-overlapping, on char boundaries
             let mut last_end = 0usize;
             let mut leaf_spans: Vec<(usize, usize)> = Vec::new();
@@ -91,6 +94,9 @@ fn run(loc: &Locator, input: &str, memo: bool) -> (u64, usize, String, String, u
             }
             if want != leaf_spans {
                 leaves_ok = false;
+                if std::env::var("PARSEDRV_DEBUG").is_ok() {
+                    eprintln!("want   {:?}\nleaves {:?}", want, leaf_spans);
+                }
             }
         }
         Ok(_) => "no-node".hash(&mut h),
